@@ -139,6 +139,22 @@ static std::vector<Plan> c07_fixed(int tier) {
         p.ops.push_back(Op("send", 0, 50)); p.ops.push_back(Op("send", 1, 50));
         v.push_back(p);
     } } }
+    // TLS 1.3 group lists: every pair of non-empty subsets of two groups out of {P-256, P-384, P-521, X25519} plus "no list" on either side
+    {
+        static const int G[] = { 23, 24, 25, 29 };
+        std::vector<std::vector<int> > lists; lists.push_back({});
+        for (int a = 0; a < 4; a++) { lists.push_back({ G[a] }); for (int b = 0; b < 4; b++) { if (a != b) { lists.push_back({ G[a], G[b] }); } } }
+        int n = 0;
+        for (auto &lc : lists) { for (auto &ls : lists) {
+            if ((n++ % 3) != 0 && !(lc.size() == 1 && ls.size() == 1)) { continue; }    // all single/single pairs, a third of the rest
+            Plan p; p.seed = 73000 + (uint64_t) n;
+            p.cfg["dtls"] = 0; p.cfg["vers_c"] = 4; p.cfg["vers_s"] = 4; p.cfg["sid_kind"] = KK_RSA2048; p.cfg["suite"] = TLS_AES_128_GCM_SHA256;
+            for (size_t i = 0; i < lc.size(); i++) { p.cfg["grp_c" + std::to_string(i)] = lc[i]; } if (!lc.empty()) { p.cfg["key_shares"] = 1; }
+            for (size_t i = 0; i < ls.size(); i++) { p.cfg["grp_s" + std::to_string(i)] = ls[i]; }
+            p.ops.push_back(Op("send", 0, 50)); p.ops.push_back(Op("send", 1, 50));
+            v.push_back(p);
+        } }
+    }
     return v;
 }
 
@@ -215,6 +231,16 @@ static RunResult c07_exec(const Plan &p) {
                         else {
                             bool offered = pc.suites.empty(); for (auto s : pc.suites) { if (s == nsc) { offered = true; } }
                             if (!offered) { res.violate("param_not_mutual", "suite," + ctx, std::string("negotiated suite ") + suite_name((uint16_t) nsc) + " was not offered by the client"); }
+                        }
+                        if (!res.violation && nvc == v_tls_1_3) {
+                            // key-exchange group: one both sides enabled (an endpoint without an explicit list enables the four defaults)
+                            int gc = vsim_peek_tls13_group((const struct ssl *) w.cli->ssl), gs = vsim_peek_tls13_group((const struct ssl *) w.srv->ssl);
+                            auto enabled = [](const std::vector<uint16_t> &l, int g) { if (l.empty()) { return g == 23 || g == 24 || g == 25 || g == 29; } for (auto x : l) { if (x == g) { return true; } } return false; };
+                            std::string gl = "c["; for (auto x : pc.groups_c) { gl += std::to_string(x) + " "; } gl += "] s["; for (auto x : pc.groups_s) { gl += std::to_string(x) + " "; } gl += "]";
+                            if (gc != gs) { res.violate("endpoints_disagree", "group", "client reports group " + std::to_string(gc) + ", server " + std::to_string(gs)); }
+                            else if (!enabled(pc.groups_c, gc)) { res.violate("group_not_mutual", "client_never_enabled", "negotiated group " + std::to_string(gc) + " is not in the client's list " + gl); }
+                            else if (!enabled(pc.groups_s, gs)) { res.violate("group_not_mutual", "server_never_enabled", "negotiated group " + std::to_string(gs) + " is not in the server's list " + gl); }
+                            else { res.count("group." + std::to_string(gc)); }
                         }
                         if (!res.violation && p.get("fallback") && top_bit(vs) > top_bit(vc_eff)) {
                             res.violate("fallback_accepted", ctx, "the ClientHello carried TLS_FALLBACK_SCSV, the server supports a higher version than the client offered, and the handshake completed");
